@@ -10,6 +10,7 @@ import (
 	"io"
 	"math/rand"
 	"os"
+	"runtime"
 	"sort"
 	"sync"
 
@@ -23,6 +24,14 @@ type Args struct {
 }
 
 var families = map[string]func(a *Args) error{}
+
+func init() {
+	// A storage child is traced with strace, which counts the file-system calls of the MAIN thread: the main goroutine
+	// stays on it (locked during initialisation, it is wired to the main thread).
+	if len(os.Args) > 1 && os.Args[1] == "storagechild" {
+		runtime.LockOSThread()
+	}
+}
 
 func main() {
 	if len(os.Args) < 2 {
